@@ -31,8 +31,8 @@ type World struct {
 	// all SSA functions that belong to gleece packages (incl. anonymous)
 	SSAFuncs []*ssa.Function
 
-	stats map[string]int
-	reach map[string]bool
+	stats       map[string]int
+	reach       map[string]bool
 	cfgOptional map[*types.Var]string
 	derefSum    map[*ssa.Function]map[int]bool
 }
